@@ -84,6 +84,14 @@ Definition mul_amp (m : mode) (f : sfmt) (s : sty f) (amp : sty (float_of f)) : 
   let* prod := native_mul m (float_of f) self_f amp in
   conv m (float_of f) f prod.
 
+(* the zero amplitude of the Signed companion: 0, +0.0 *)
+Definition szero_of (f : sfmt) : sty (signed_of f) :=
+  match f as f0 return sty (signed_of f0) with
+  | SInt _ => 0
+  | SF32 => F32.zero
+  | SF64 => F64.zero
+  end.
+
 (* <Self::Float as FloatSample>::IDENTITY *)
 Definition identity_of (f : sfmt) : sty (float_of f) :=
   match f as f0 return sty (float_of f0) with
